@@ -156,6 +156,13 @@ def h_roundtrip(ctx: Any, code: str, n: int, script: str, stacks: Any, decimal: 
     ctx.check([_norm(x) for x in end.payoffs] == [_norm(x) for x in st.payoffs], 'replayed-payoffs-differ')
     ea, eb = essence(st), essence(end)
     ctx.check(ea == eb, 'replayed-actions-or-cards-differ', lambda: f'{[x for x in zip(ea, eb) if x[0] != x[1]][:2]}')
+    ca = [o.commentary for o in st.operations if o.commentary is not None]
+    cb = [o.commentary for o in end.operations if o.commentary is not None]
+    ctx.check(ca == cb, 'commentary-changed-by-replay', lambda: f'{ca!r} -> {cb!r}')
+    # ... and writing the replayed hand down again gives the same action lines
+    again = HandHistory.from_game_state(game, end, user_defined_fields=dict(user), players=[f'P{i}' for i in range(n)])
+    ctx.check(again.actions == hh.actions, 'replayed-hand-is-written-differently',
+              lambda: f'{[x for x in zip(hh.actions, again.actions) if x[0] != x[1]][:2]}')
     ctx.cover('round-trip')
     if aspect == 4:
         # a history may omit checks that cost nothing: the replay completes them
